@@ -54,6 +54,7 @@ package main
 //@   requires s != nil
 //@   modifies s.timers.timers
 //@   ensures[C14] noerr: err == nil
+//@   ensures[C14] allorone: all || len(mids) <= 1
 //@   ensures[C14] unaddressed: !is(msg, map[string]interface{}) ==> all && len(mids) == 0
 //@   ensures[C14] single: is(msg, map[string]interface{}) && ("to" in as(msg, map[string]interface{})) && is(as(msg, map[string]interface{})["to"], string)
 //@                        ==> !all && (as(as(msg, map[string]interface{})["to"], string) == "ws" || as(as(msg, map[string]interface{})["to"], string) == "http" || as(as(msg, map[string]interface{})["to"], string) == "timers"
@@ -105,6 +106,12 @@ package main
 //@   ensures[C16] once: ncalls("cmd/mcrew.(*Storage).WriteState") <= old(ncalls("cmd/mcrew.(*Storage).WriteState")) + 1
 //@   ensures[C16] samekeys: forall k string :: (k in s.crew.Machines) <==> old(k in s.crew.Machines)
 //@   ensures[C16] samemachines: forall k string :: (k in s.crew.Machines) ==> s.crew.Machines[k] == old(s.crew.Machines[k]) && s.crew.Machines[k].SpecSource == old(s.crew.Machines[k].SpecSource)
+//@   let to = as(msg, map[string]interface{})["to"]
+//@   ensures[C14] nobodyelse: is(msg, map[string]interface{}) && old("to" in as(msg, map[string]interface{})) && is(to, string) && err == nil
+//@                          ==> forall k string :: (k in processed) ==> k == as(to, string) && k != "ws" && k != "http" && k != "timers"
+//@   loop 1 invariant[C14] !all ==> len(mids) <= 1 && (len(mids) == 1 && is(msg, map[string]interface{}) && old("to" in as(msg, map[string]interface{})) && is(to, string) ==> mids[0] == as(to, string) && mids[0] != "ws" && mids[0] != "http" && mids[0] != "timers")
+//@   loop 2 invariant[C14] !all ==> len(mids) <= 1 && (len(mids) == 1 && is(msg, map[string]interface{}) && old("to" in as(msg, map[string]interface{})) && is(to, string) ==> mids[0] == as(to, string) && mids[0] != "ws" && mids[0] != "http" && mids[0] != "timers")
+//@   loop 2 invariant[C14] routedonly: !all ==> forall k string :: (k in processed) ==> len(mids) == 1 && k == mids[0]
 //@   loop 1 invariant forall k string :: (k in specs) ==> specs[k] != nil && wfSpec(specs[k])
 //@   loop 2 invariant forall k string :: (k in states) ==> states[k] != nil && (k in s.crew.Machines)
 //@   loop 2 invariant wfWalkeds(processed)
